@@ -4,6 +4,12 @@ usage: seed_matrix.py [seed-id ...]   (default: all).  Never run concurrently wi
 import json, os, subprocess, sys, time
 V = "/verif"
 PLAN = {   # seed -> [(property, extra args)]
+    "C06-m1": [("C06", ["--only", "k_zoned_fixed_add_mixed|k_zoned_fixed_add_time"])],
+    "C06-m2": [("C06", [])],
+    "C11-m1": [("C11", ["--only", "k_span_balance_24h"])],
+    "C11-m2": [("C11", ["--only", "k_span_round_24h$|k_span_round_24h_day"])],
+    "C13-m1": [("C13", [])],
+    "C13-m2": [("C13", []), ("C02", ["--only", "k_idt_to_ts"])],
     "C01-m1": [("C01", ["--only", "nth_weekday_of_month"])],
     "C01-m2": [("C01", ["--only", "k_iso_"])],
     "C02-m1": [("C02", ["--only", "k_off_to_datetime"])],
